@@ -293,3 +293,104 @@ func sameCell(a, b ssa.Value) bool {
 	al, isAlloc := ua.X.(*ssa.Alloc)
 	return isAlloc && ub.X == ssa.Value(al)
 }
+
+// ---- C10 (after round-6 seed C10-q) --------------------------------------------------------------------------------
+
+// c10NodeAlwaysConsidered (NODE-ALWAYS-CONSIDERED): "each module's reported dependencies are exactly the modules
+// reachable…" starts with every module being a node of the graph, edges or not: a stand-alone target module has no
+// dependent whose AddEdge would add it. In every function that adds nodes to a dag.Graph, no success return is
+// reached without passing the point where the decision to add the node is taken (the outermost condition guarding
+// AddNode, or the call itself when it is unguarded).
+func c10NodeAlwaysConsidered(c *Ctx) {
+	const rule = "NODE-ALWAYS-CONSIDERED"
+	c.Rule(rule, "a graph builder decides about adding the node before any success return", 1)
+	p := c.P
+	n := 0
+	for _, rel := range []string{"private/bufpkg/bufmodule", "private/buf/bufworkspace"} {
+		pk := p.Pkg(rel)
+		if pk == nil {
+			continue
+		}
+		for _, sf := range p.SSAFuncsOf([]*packages.Package{pk}) {
+			var add *ssa.Call
+			for _, call := range callsIn(sf) {
+				if o := staticCalleeObj(call.Call); o != nil && o.Name() == "AddNode" && o.Pkg() != nil && strings.HasSuffix(o.Pkg().Path(), "/private/pkg/dag") {
+					if cv, ok := call.Instr.(*ssa.Call); ok {
+						add = cv
+					}
+				}
+			}
+			if add == nil {
+				continue
+			}
+			// the decision point: the outermost guard of the call
+			decision := add.Block()
+			if len(decision.Preds) > 0 {
+				// conditional: go up to where the (possibly short-circuit) condition starts
+				decision = decision.Idom()
+				for decision != nil && decision.Idom() != nil && (decision.Comment == "cond.true" || decision.Comment == "cond.false" || decision.Comment == "binop.rhs") {
+					decision = decision.Idom()
+				}
+			}
+			if decision == nil {
+				decision = add.Block()
+			}
+			n++
+			var early []string
+			for _, r := range returnsOf(sf) {
+				success := true
+				for _, res := range r.Results {
+					if isErrorType(res.Type()) && !isNilConst(spilledResult(r, res)) {
+						success = false
+					}
+				}
+				if success && !decision.Dominates(r.Block()) {
+					early = append(early, p.Pos(r.Pos()))
+				}
+			}
+			c.Ob(rule, ssaFuncName(sf)+"/AddNode", add.Pos(), len(early) == 0, true, "every success return comes after the decision about AddNode (returns before it: %v)", early)
+		}
+	}
+	if n == 0 {
+		c.Fail(rule, "anchor", token.NoPos, "no function adding nodes to a dag.Graph found")
+	}
+}
+
+// c10TrackerTracksAll (TRACKER-TRACKS-ALL): "a path provided by two modules … is reported as an error rather than
+// resolved arbitrarily" is decided by the proto file tracker, which can only see what it is told about: its track*
+// methods record every module and file they are handed, whatever the module's kind. No return of a tracking method is
+// control-dependent on IsLocal / IsTarget of what is being tracked.
+func c10TrackerTracksAll(c *Ctx) {
+	const rule = "TRACKER-TRACKS-ALL"
+	c.Rule(rule, "the proto file tracker records every module and file it is handed, local or remote", 2)
+	p := c.P
+	pk := p.Pkg("private/bufpkg/bufmodule")
+	if pk == nil {
+		c.Fail(rule, "anchor", token.NoPos, "bufmodule not found")
+		return
+	}
+	n := 0
+	for _, sf := range p.SSAFuncsOf([]*packages.Package{pk}) {
+		if sf.Signature.Recv() == nil || !strings.HasSuffix(namedPath(derefType(sf.Signature.Recv().Type())), "bufmodule.protoFileTracker") || !strings.HasPrefix(sf.Name(), "track") {
+			continue
+		}
+		n++
+		var kinds []string
+		for _, b := range sf.Blocks {
+			i := ifOf(b)
+			if i == nil {
+				continue
+			}
+			sliceBack(i.Cond, func(x ssa.Value) bool {
+				if cl, ok := x.(*ssa.Call); ok && cl.Call.IsInvoke() && (cl.Call.Method.Name() == "IsLocal" || cl.Call.Method.Name() == "IsTarget") {
+					kinds = append(kinds, cl.Call.Method.Name())
+				}
+				return true
+			})
+		}
+		c.Ob(rule, ssaFuncName(sf)+"/kind-blind", sf.Pos(), len(kinds) == 0, true, "no branch of the tracking method asks for the kind of what it tracks (asked: %v)", uniq(kinds))
+	}
+	if n == 0 {
+		c.Fail(rule, "anchor", token.NoPos, "no track* method of protoFileTracker found")
+	}
+}
